@@ -51,7 +51,7 @@ Section Generic.
 
   (* the three pieces of simple_term, named *)
   Definition const_of (part : str) : res (T * nat) :=
-    match parse_dec part with
+    match parse_dec_finite part with
     | Some c => Ok (c, O)
     | None => Err EInvalidConstant
     end.
@@ -60,8 +60,8 @@ Section Generic.
     | [] => Ok n1
     | [c] => if N.eqb c c_plus then Ok n1
              else if N.eqb c c_minus then Ok (nneg n1)
-             else match parse_dec coeff_str with Some c => Ok c | None => Err EInvalidCoefficient end
-    | _ => match parse_dec coeff_str with Some c => Ok c | None => Err EInvalidCoefficient end
+             else match parse_dec_finite coeff_str with Some c => Ok c | None => Err EInvalidCoefficient end
+    | _ => match parse_dec_finite coeff_str with Some c => Ok c | None => Err EInvalidCoefficient end
     end.
   Definition after_var (c : T) (rest : str) : res (T * nat) :=
     match rest with
@@ -93,14 +93,14 @@ Section Generic.
   Proof. reflexivity. Qed.
 
   Lemma const_of_no_panic part w : const_of part <> Panic w.
-  Proof. unfold const_of. destruct (parse_dec part); discriminate. Qed.
+  Proof. unfold const_of. destruct (parse_dec_finite part); discriminate. Qed.
 
   Lemma coeff_of_no_panic cs w : coeff_of cs <> Panic w.
   Proof.
     unfold coeff_of. destruct cs as [|c [|c2 r]]; [discriminate| |].
     - destruct (N.eqb c c_plus); [discriminate|]. destruct (N.eqb c c_minus); [discriminate|].
-      destruct (parse_dec [c]); discriminate.
-    - destruct (parse_dec (c :: c2 :: r)); discriminate.
+      destruct (parse_dec_finite [c]); discriminate.
+    - destruct (parse_dec_finite (c :: c2 :: r)); discriminate.
   Qed.
 
   Lemma after_var_no_panic c rest w : after_var c rest <> Panic w.
@@ -118,9 +118,9 @@ Section Generic.
       [apply after_var_no_panic|discriminate|exfalso; exact (coeff_of_no_panic _ _ E)].
   Qed.
 
-  Lemma const_of_inv part ck : const_of part = Ok ck -> exists c, parse_dec part = Some c /\ ck = (c, O).
+  Lemma const_of_inv part ck : const_of part = Ok ck -> exists c, parse_dec_finite part = Some c /\ ck = (c, O).
   Proof.
-    unfold const_of. destruct (parse_dec part) as [c|]; [|discriminate].
+    unfold const_of. destruct (parse_dec_finite part) as [c|]; [|discriminate].
     intros H; injection H as <-. exists c; auto.
   Qed.
 
@@ -197,7 +197,8 @@ Section Generic.
   Qed.
 
   Lemma dense_coeffs_checked_ok ts :
-    (forall t, In t ts -> (Z.of_nat (snd t) <= MAX_POWER)%Z) -> dense_coeffs_checked ts = Ok (dense_coeffs ts).
+    (forall t, In t ts -> (Z.of_nat (snd t) <= MAX_POWER)%Z) ->
+    dense_coeffs_checked ts = if sums_finite ts then Ok (dense_coeffs ts) else Err EInvalidCoefficient.
   Proof.
     intros H. unfold dense_coeffs_checked.
     assert (Hm : (Z.of_nat (max_power_of ts) <= MAX_POWER)%Z).
@@ -215,7 +216,7 @@ Section Generic.
     unfold parse_simple. cbv zeta.
     destruct (existsb bad_part _); [discriminate|].
     destruct (mapM _ _) as [terms|e|w'] eqn:E; [|discriminate|exfalso; revert E; apply mapM_no_panic; intros; apply simple_term_no_panic].
-    rewrite dense_coeffs_checked_ok; [discriminate|].
+    rewrite dense_coeffs_checked_ok; [destruct (sums_finite terms); discriminate|].
     intros [c k] Hin. destruct (mapM_ok_in _ _ _ _ E Hin) as (p & _ & Hp).
     exact (simple_term_pow _ _ _ _ Hp).
   Qed.
@@ -563,20 +564,27 @@ Section Accept.
       unfold parse_dec. rewrite Hc, <- E. apply parse_unsigned_render. exact Hw.
   Qed.
 
-  Lemma parse_dec_plus : @parse_dec T NT [c_plus] = None.
+  Lemma parse_dec_finite_signed neg d : wf_dec d = true -> is_finite (sgn neg (@dec_val T NT d)) = true ->
+    parse_dec_finite (sign_str neg ++ render_dec d) = Some (sgn neg (@dec_val T NT d)).
+  Proof. intros Hw Hf. unfold parse_dec_finite. rewrite parse_dec_signed by exact Hw. rewrite Hf. reflexivity. Qed.
+
+  Lemma parse_dec_plus : @parse_dec_finite T NT [c_plus] = None.
   Proof. reflexivity. Qed.
-  Lemma parse_dec_minus : @parse_dec T NT [c_minus] = None.
+  Lemma parse_dec_minus : @parse_dec_finite T NT [c_minus] = None.
   Proof. reflexivity. Qed.
 
   Definition opt_dec_wf (co : option dec) : bool := match co with None => true | Some d => wf_dec d end.
   Definition opt_dec_str (co : option dec) : str := match co with None => [] | Some d => render_dec d end.
   Definition opt_dec_val (co : option dec) : T := match co with None => n1 | Some d => dec_val d end.
 
-  Lemma coeff_of_render neg co : opt_dec_wf co = true ->
+  Definition opt_dec_fin (neg : bool) (co : option dec) : bool :=
+    match co with None => true | Some d => is_finite (sgn neg (@dec_val T NT d)) end.
+
+  Lemma coeff_of_render neg co : opt_dec_wf co = true -> opt_dec_fin neg co = true ->
     coeff_of (sign_str neg ++ opt_dec_str co) = Ok (sgn neg (opt_dec_val co)).
   Proof.
-    destruct co as [d|]; cbn [opt_dec_wf opt_dec_str opt_dec_val]; intros Hw.
-    - pose proof (parse_dec_signed neg d Hw) as Hp.
+    destruct co as [d|]; cbn [opt_dec_wf opt_dec_str opt_dec_val opt_dec_fin]; intros Hw Hfin.
+    - pose proof (parse_dec_finite_signed neg d Hw Hfin) as Hp.
       destruct (sign_str neg ++ render_dec d) as [|c1 [|c2 r]]; unfold coeff_of.
       + discriminate.
       + destruct (N.eqb_spec c1 c_plus) as [->|_]; [rewrite parse_dec_plus in Hp; discriminate|].
@@ -598,15 +606,15 @@ Section Accept.
   Qed.
 
   (* one part is read as the value of its term *)
-  Lemma simple_term_part var v nt : wf_term (snd nt) = true ->
+  Lemma simple_term_part var v nt : wf_term (snd nt) = true -> @term_finite T NT nt = true ->
     (var = Some v /\ okv v) \/ (var = None /\ is_var (snd nt) = false) ->
     simple_term var (part v nt) = Ok (@term_val T NT nt).
   Proof.
-    intros Hw Hvar. destruct nt as [neg t]. cbn [snd] in *. rewrite simple_term_eq.
+    intros Hw Hfin Hvar. destruct nt as [neg t]. unfold term_finite in Hfin. cbn [fst snd] in *. rewrite simple_term_eq.
     destruct t as [d|co e].
     - (* constant *)
       assert (Hc : const_of (part v (neg, UConst d)) = Ok (@term_val T NT (neg, UConst d))).
-      { unfold const_of, part. cbn [fst snd render_term]. rewrite parse_dec_signed by exact Hw. reflexivity. }
+      { unfold const_of, part. cbn [fst snd render_term]. rewrite parse_dec_finite_signed by assumption. reflexivity. }
       destruct Hvar as [[-> Hok]|[-> _]]; [|exact Hc].
       rewrite find_char_none; [exact Hc|].
       intros Hin. unfold part in Hin. cbn [fst snd render_term] in Hin.
@@ -630,7 +638,7 @@ Section Accept.
           destruct (render_dec_chars d v Hc K) as [K'|K']; [rewrite K' in Hd; discriminate|contradiction]. }
       rewrite find_char_app by exact Hnotin.
       rewrite firstn_len_app, skipn_S_len_app.
-      rewrite coeff_of_render by exact Hc.
+      rewrite coeff_of_render by (try exact Hc; destruct co; exact Hfin).
       rewrite after_var_render by exact He.
       unfold term_val. cbn [fst snd term_coef term_pow]. destruct co; reflexivity.
   Qed.
@@ -646,11 +654,12 @@ Section Accept.
   Theorem simple_accept (U : UClass) : USane U ->
     forall (src : usrc) (v : N) (lead : bool) (s : str),
     wf_src src = true -> (uses_var src = true -> u_alphabetic U v = true) ->
+    @src_finite T NT src = true -> sums_finite (@terms_of T NT src) = true ->
     strip_ws s = render lead v src ->
     parse_simple U s = Ok {| s_coefs := dense_coeffs (@terms_of T NT src);
                              s_var := if uses_var src then Some v else None |}.
   Proof.
-    intros HU src v lead s Hw Hv Hs.
+    intros HU src v lead s Hw Hv Hfin Hsum Hs.
     assert (Hok : uses_var src = true -> okv v) by (intros K; exact (usane_okv U v HU (Hv K))).
     pose proof (no_minus_src v src Hw Hok) as Hall.
     unfold parse_simple. cbv zeta. rewrite Hs, parts_render, find_var by assumption.
@@ -661,13 +670,14 @@ Section Accept.
       rewrite (bad_part_part v nt H1 H2) in Hb. discriminate. }
     rewrite Hbad.
     rewrite (mapM_map_ok _ (part v) (@term_val T NT) src).
-    2:{ intros nt K. destruct (Hall nt K) as [H1 H2]. apply simple_term_part; [exact H1|].
+    2:{ intros nt K. destruct (Hall nt K) as [H1 H2]. apply simple_term_part; [exact H1| |].
+        { unfold src_finite in Hfin. rewrite forallb_forall in Hfin. exact (Hfin nt K). }
         destruct (uses_var src) eqn:E.
         - left; split; [reflexivity|exact (Hok eq_refl)].
         - right; split; [reflexivity|]. destruct (is_var (snd nt)) eqn:E2; [|reflexivity].
           assert (uses_var src = true) by (apply existsb_exists; exists nt; auto). congruence. }
     fold (@terms_of T NT src).
-    rewrite dense_coeffs_checked_ok; [reflexivity|].
+    rewrite dense_coeffs_checked_ok; [rewrite Hsum; reflexivity|].
     intros t Ht. unfold terms_of in Ht. apply in_map_iff in Ht. destruct Ht as (nt & <- & K).
     unfold term_val. cbn [snd]. apply term_pow_bound. exact (proj1 (Hall nt K)).
   Qed.
@@ -705,13 +715,24 @@ Section Converse.
       exists false, d. auto.
   Qed.
 
-  Lemma coeff_of_inv cs (c : T) : ~ In c_plus cs -> coeff_of cs = Ok c ->
-    exists neg co, opt_dec_wf co = true /\ cs = sign_str neg ++ opt_dec_str co /\ c = sgn neg (opt_dec_val co).
+  Lemma parse_dec_finite_inv s (c : T) : parse_dec_finite s = Some c ->
+    exists neg d, wf_dec d = true /\ s = sign_str neg ++ render_dec d /\ c = sgn neg (dec_val d) /\
+                  is_finite (sgn neg (@dec_val T NT d)) = true.
   Proof.
-    assert (Hpd : forall s, match parse_dec s with Some c0 => Ok c0 | None => Err EInvalidCoefficient end = Ok c ->
-              exists neg co, opt_dec_wf co = true /\ s = sign_str neg ++ opt_dec_str co /\ c = sgn neg (opt_dec_val co)).
-    { intros s H. destruct (parse_dec s) as [c0|] eqn:E; [|discriminate]. injection H as ->.
-      destruct (parse_dec_inv _ _ E) as (neg & d & Hw & Hs & Hc). exists neg, (Some d). auto. }
+    unfold parse_dec_finite. destruct (parse_dec s) as [c0|] eqn:E; [|discriminate].
+    destruct (is_finite c0) eqn:F; [|discriminate]. intros H; injection H as <-.
+    destruct (parse_dec_inv _ _ E) as (neg & d & Hw & Hs & Hc). exists neg, d. subst c0. auto.
+  Qed.
+
+  Lemma coeff_of_inv cs (c : T) : ~ In c_plus cs -> coeff_of cs = Ok c ->
+    exists neg co, opt_dec_wf co = true /\ cs = sign_str neg ++ opt_dec_str co /\ c = sgn neg (opt_dec_val co) /\
+                   opt_dec_fin neg co = true.
+  Proof.
+    assert (Hpd : forall s, match parse_dec_finite s with Some c0 => Ok c0 | None => Err EInvalidCoefficient end = Ok c ->
+              exists neg co, opt_dec_wf co = true /\ s = sign_str neg ++ opt_dec_str co /\ c = sgn neg (opt_dec_val co) /\
+                             opt_dec_fin neg co = true).
+    { intros s H. destruct (parse_dec_finite s) as [c0|] eqn:E; [|discriminate]. injection H as ->.
+      destruct (parse_dec_finite_inv _ _ E) as (neg & d & Hw & Hs & Hc & Hf). exists neg, (Some d). auto. }
     intros Hnp. destruct cs as [|c1 [|c2 r]]; unfold coeff_of.
     - intros H; injection H as <-. exists false, None. auto.
     - destruct (N.eqb_spec c1 c_plus) as [->|_]; [exfalso; apply Hnp; left; reflexivity|].
@@ -724,51 +745,52 @@ Section Converse.
   Lemma simple_term_inv var v p ck : ~ In c_plus p -> var = Some v \/ var = None ->
     simple_term var p = Ok ck ->
     exists nt, wf_term (snd nt) = true /\ p = part v nt /\ ck = @term_val T NT nt /\
-               (var = None -> is_var (snd nt) = false).
+               (var = None -> is_var (snd nt) = false) /\ @term_finite T NT nt = true.
   Proof.
     intros Hnp Hvar. rewrite simple_term_eq.
     assert (Hc : const_of p = Ok ck ->
                  exists nt, wf_term (snd nt) = true /\ p = part v nt /\ ck = @term_val T NT nt /\
-                            (var = None -> is_var (snd nt) = false)).
+                            (var = None -> is_var (snd nt) = false) /\ @term_finite T NT nt = true).
     { intros H. apply const_of_inv in H. destruct H as (c & Hp & ->).
-      destruct (parse_dec_inv _ _ Hp) as (neg & d & Hw & -> & ->).
-      exists (neg, UConst d). cbn [snd wf_term is_var]. auto. }
+      destruct (parse_dec_finite_inv _ _ Hp) as (neg & d & Hw & -> & -> & Hf).
+      exists (neg, UConst d). unfold term_finite. cbn [fst snd wf_term is_var]. auto. }
     destruct Hvar as [-> | ->]; [|exact Hc].
     destruct (find_char v p) as [x|] eqn:Ef; [|exact Hc].
     destruct (find_char_some _ _ _ Ef) as (a & b & -> & Ha & <-).
     rewrite firstn_len_app, skipn_S_len_app.
     destruct (coeff_of a) as [c|e|w] eqn:Ec; try discriminate.
     intros H. apply coeff_of_inv in Ec; [|intros K; apply Hnp; apply in_app_iff; left; exact K].
-    destruct Ec as (neg & co & Hco & -> & ->).
+    destruct Ec as (neg & co & Hco & -> & -> & Hcf).
     apply after_var_inv in H.
     assert (He : exists e, match e with None => true | Some ds => wf_exp ds end = true /\
                            b = match e with None => [] | Some ds => c_caret :: ds end /\
                            ck = (sgn neg (opt_dec_val co), @term_pow (UVar None e))).
     { destruct H as [[-> ->]|(ds & -> & Hw & ->)]; [exists None|exists (Some ds)]; auto. }
     destruct He as (e & Hwe & -> & ->).
-    exists (neg, UVar co e). cbn [snd wf_term is_var]. split; [|split; [|split]].
+    exists (neg, UVar co e). cbn [snd wf_term is_var]. split; [|split; [|split; [|split]]].
     - unfold opt_dec_wf in Hco. rewrite Hco, Hwe. reflexivity.
     - unfold part, opt_dec_str. cbn [fst snd render_term]. rewrite <- !app_assoc. reflexivity.
     - unfold term_val. cbn [fst snd term_coef term_pow]. destruct co; reflexivity.
     - congruence.
+    - unfold term_finite. cbn [fst snd]. destruct co; exact Hcf.
   Qed.
 
   Lemma terms_inv var v parts terms :
     Forall (fun p => ~ In c_plus p) parts -> var = Some v \/ var = None ->
     mapM (simple_term var) parts = Ok terms ->
     exists src : usrc, wf_src src = true /\ map (part v) src = parts /\ terms = @terms_of T NT src /\
-                       (var = None -> uses_var src = false).
+                       (var = None -> uses_var src = false) /\ @src_finite T NT src = true.
   Proof.
     intros Hall Hvar. revert terms. induction Hall as [|p parts Hp Hall IH]; intros terms H; cbn [mapM] in H.
-    - injection H as <-. exists []. auto.
+    - injection H as <-. exists []. repeat split; auto.
     - destruct (simple_term var p) as [ck|e|w] eqn:E1; cbn [bind] in H; try discriminate.
       destruct (mapM (simple_term var) parts) as [cks|e|w] eqn:E2; cbn [bind] in H; try discriminate.
       injection H as <-.
-      destruct (simple_term_inv var v p ck Hp Hvar E1) as (nt & Hw & -> & -> & Hn).
-      destruct (IH cks eq_refl) as (src & Hws & <- & -> & Hns).
-      exists (nt :: src). cbn [wf_src forallb map uses_var existsb terms_of]. repeat split.
-      + rewrite Hw. exact Hws.
-      + intros K. rewrite (Hn K). exact (Hns K).
+      destruct (simple_term_inv var v p ck Hp Hvar E1) as (nt & Hw & -> & -> & Hn & Hf).
+      destruct (IH cks eq_refl) as (src & Hws & <- & -> & Hns & Hfs).
+      exists (nt :: src). cbn [wf_src src_finite forallb map uses_var existsb terms_of].
+      split; [rewrite Hw; exact Hws|]. split; [reflexivity|]. split; [reflexivity|].
+      split; [intros K; rewrite (Hn K); exact (Hns K)|]. rewrite Hf. exact Hfs.
   Qed.
 
   (* ---- C16 (simple parser): acceptance is contained in the documented language.
@@ -779,12 +801,18 @@ Section Converse.
     strip_ws s = [] \/
     exists (lead : bool) (v : N) (src : usrc),
       src <> [] /\ wf_src src = true /\ (uses_var src = true -> u_alphabetic U v = true) /\
+      @src_finite T NT src = true /\ sums_finite (@terms_of T NT src) = true /\
       strip_ws s = render lead v src.
   Proof.
     intros HU s p. unfold parse_simple. cbv zeta.
     set (t := strip_ws s). set (nz := minus_to_plusminus t).
     destruct (existsb bad_part _) eqn:Eb; [discriminate|].
-    destruct (mapM _ _) as [terms|e|w] eqn:Em; try discriminate. intros _.
+    destruct (mapM _ _) as [terms|e|w] eqn:Em; try discriminate.
+    destruct (dense_coeffs_checked terms) as [cs|e|w] eqn:Ed; try discriminate. intros _.
+    assert (Hsum : sums_finite terms = true).
+    { unfold dense_coeffs_checked in Ed. cbv zeta in Ed.
+      destruct (_ <=? _)%Z; [discriminate|]. destruct (_ <? _)%Z; [discriminate|].
+      destruct (sums_finite terms); [reflexivity|discriminate]. }
     (* the variable, or a dummy *)
     set (var := find_pred (u_alphabetic U) nz) in *.
     assert (Hv : exists v, (var = Some v \/ var = None) /\ (var <> None -> u_alphabetic U v = true)).
@@ -798,7 +826,8 @@ Section Converse.
     assert (Hdrop : Forall (fun p => ~ In c_plus p) (drop_leading_empty (split_on c_plus nz))).
     { destruct (split_on c_plus nz) as [|[|? ?] ?]; cbn [drop_leading_empty]; try exact Hpieces.
       inversion Hpieces; assumption. }
-    destruct (terms_inv var v _ terms Hdrop Hvar Em) as (src & Hw & Hparts & _ & Hnone).
+    destruct (terms_inv var v _ terms Hdrop Hvar Em) as (src & Hw & Hparts & Hterms & Hnone & Hfin).
+    rewrite Hterms in Hsum.
     assert (Hcond : uses_var src = true -> u_alphabetic U v = true).
     { intros K. apply Halpha. intros K2. rewrite (Hnone K2) in K. discriminate. }
     assert (Hok : uses_var src = true -> okv v) by (intros K; exact (usane_okv U v HU (Hcond K))).
@@ -812,12 +841,12 @@ Section Converse.
       destruct src as [|[neg t0] rest].
       + left. cbn [map] in Hparts. subst P'. cbn [flat_map] in J.
         apply (m2pm_inj t []). symmetry. exact J.
-      + right. exists true, v, ((neg, t0) :: rest). repeat split; try assumption; [discriminate|].
+      + right. exists true, v, ((neg, t0) :: rest). split; [discriminate|]. repeat (split; [assumption|]).
         apply m2pm_inj. rewrite render_norm by exact Hnm. rewrite orb_true_r.
         fold nz. rewrite <- J, <- Hparts. reflexivity.
     - cbn [drop_leading_empty] in Hparts.
       destruct src as [|[neg t0] rest]; [discriminate|].
-      right. exists false, v, ((neg, t0) :: rest). repeat split; try assumption; [discriminate|].
+      right. exists false, v, ((neg, t0) :: rest). split; [discriminate|]. repeat (split; [assumption|]).
       apply m2pm_inj. rewrite render_norm by exact Hnm. rewrite orb_false_r.
       fold nz. rewrite <- J, <- Hparts.
       destruct neg; [|reflexivity].
@@ -921,6 +950,55 @@ Section Reals.
     destruct neg; cbn [sgn nneg RNum]; ring.
   Qed.
 
+  (* in exact arithmetic every number is finite: the side conditions of 59b028d are vacuous *)
+  Lemma is_finite_R (x : R) : @is_finite R RNum x = true.
+  Proof. unfold is_finite. cbn [neqb nsub n0 RNum]. apply Reqb_true. ring. Qed.
+  Lemma is_finite_Z (x : Z) : @is_finite Z ZNum x = true.
+  Proof. unfold is_finite. cbn [neqb nsub n0 ZNum]. rewrite Z.sub_diag. reflexivity. Qed.
+
+  Lemma parse_dec_finite_total {T} {NT : Num T} : (forall x : T, is_finite x = true) ->
+    forall s, @parse_dec_finite T NT s = parse_dec s.
+  Proof. intros H s. unfold parse_dec_finite. destruct (parse_dec s) as [v|]; [rewrite H|]; reflexivity. Qed.
+
+  Lemma sums_finite_total {T} {NT : Num T} : (forall x : T, is_finite x = true) ->
+    forall ts : list (T * nat), sums_finite ts = true.
+  Proof.
+    intros H ts. unfold sums_finite. generalize (repeat (@n0 T NT) (S (max_power_of ts))).
+    assert (G : forall (l : list (T * nat)) (st : list T * bool), snd st = true ->
+      snd (fold_left (fun (st : list T * bool) t =>
+             let cs' := add_at (fst st) (snd t) (fst t) in
+             (cs', snd st && is_finite (nth (snd t) cs' n0))) l st) = true).
+    { induction l as [|t l IH]; intros st Hst; cbn [fold_left]; [exact Hst|].
+      apply IH. cbn [snd]. rewrite Hst, H. reflexivity. }
+    intros cs. apply G. reflexivity.
+  Qed.
+
+  Lemma src_finite_total {T} {NT : Num T} : (forall x : T, is_finite x = true) ->
+    forall src : usrc, @src_finite T NT src = true.
+  Proof.
+    intros H src. unfold src_finite. apply forallb_forall. intros [neg t] _. unfold term_finite. cbn [fst snd].
+    destruct t as [d|[d|] e]; auto.
+  Qed.
+
+  Lemma parse_dec_finite_R s : @parse_dec_finite R RNum s = parse_dec s.
+  Proof. exact (parse_dec_finite_total is_finite_R s). Qed.
+  Lemma parse_dec_finite_Z s : @parse_dec_finite Z ZNum s = parse_dec s.
+  Proof. exact (parse_dec_finite_total is_finite_Z s). Qed.
+  Lemma sums_finite_R (ts : list (R * nat)) : sums_finite ts = true.
+  Proof. exact (sums_finite_total is_finite_R ts). Qed.
+  Lemma sums_finite_Z (ts : list (Z * nat)) : sums_finite ts = true.
+  Proof. exact (sums_finite_total is_finite_Z ts). Qed.
+
+  Lemma finite_exact :
+    (forall src : usrc, @src_finite R RNum src = true) /\ (forall ts : list (R * nat), sums_finite ts = true) /\
+    (forall src : usrc, @src_finite Z ZNum src = true) /\ (forall ts : list (Z * nat), sums_finite ts = true) /\
+    (forall s, @parse_dec_finite R RNum s = parse_dec s) /\ (forall s, @parse_dec_finite Z ZNum s = parse_dec s).
+  Proof.
+    split; [exact (src_finite_total is_finite_R)|]. split; [exact sums_finite_R|].
+    split; [exact (src_finite_total is_finite_Z)|]. split; [exact sums_finite_Z|].
+    split; [exact parse_dec_finite_R|exact parse_dec_finite_Z].
+  Qed.
+
   (* C01: a string of the documented language means what it says *)
   Theorem simple_meaning (U : UClass) : USane U ->
     forall (src : usrc) (v : N) (lead : bool) (s : str),
@@ -929,7 +1007,7 @@ Section Reals.
     exists p : spoly R, parse_simple U s = Ok p /\ forall x : R, eval_simple p x = src_value src x.
   Proof.
     intros HU src v lead s Hw Hv Hs. eexists. split.
-    - exact (simple_accept U HU src v lead s Hw Hv Hs).
+    - exact (simple_accept U HU src v lead s Hw Hv (src_finite_total is_finite_R src) (sums_finite_R _) Hs).
     - intros x. rewrite eval_dense. apply terms_value.
   Qed.
 End Reals.
